@@ -220,6 +220,8 @@ func main() {
 	res.Info["rule"] = "one evaluation = one (configuration, prefix, outcome assignment) cell: request, follow-up request, forced health round; non-trivial = the first selected candidate did not answer ok (a failover or skip decision was needed); distinct = distinct (engine, balancer, prefix, assignment, client status) fingerprints"
 	res.Assume("backends close after each exchange (Go's transparent replay on reused idle connections cannot masquerade as a second attempt)",
 		"a refused connection leaves no transcript: attempts on refusing candidates are inferred from the repository status")
+	eunreach()
+	res.Info["E-unreach"] = "preferred endpoint unreachable (no route: fails at once) or blackholed (accept queue full: fails at the 700 ms dial timeout) while listed healthy, second endpoint works; 2 engines x 3 balancers: served by the working one, same request once, failing endpoint out of rotation"
 	res.Finish()
 }
 
